@@ -52,6 +52,17 @@ def open_rewrites():
     finally:
         shutil.rmtree(d)
 
+def key_aliasing():
+    d = tempfile.mkdtemp()
+    try:
+        a = dir_archive(os.path.join(d, 'm'), cached=False)
+        a['a-b'] = 1; a['a_b'] = 2
+        b = dir_archive(os.path.join(d, 'n'), cached=False)
+        b[1] = 'int'; b['1'] = 'str'
+        return dict(a.items()), a.get('a-b'), dict(b.items()), b[1]
+    finally:
+        shutil.rmtree(d)
+
 def kwonly_validate():
     from klepto import isvalid
     def f(x, *, k): return 0
@@ -79,3 +90,4 @@ print('A-LISTREAD dir_archive.__asdict__ with a key removed after listing ->', l
 print('A-OPEN file_archive(name, cached=False) on an existing file replaces the file (inode changed):', open_rewrites())
 print('V-FIELDS validate never consults keyword-only parameters ->', kwonly_validate())
 print('G-FIELDS ignore=\'**\' drops a non-ignored keyword-only parameter from the key ->', kwonly_ignored())
+print('A-FNAME dir_archive key aliasing (\'a-b\' / \'a_b\', 1 / \'1\') ->', key_aliasing())
